@@ -363,8 +363,59 @@ def ownership_sites(prog):
     return out
 
 
+OP_DUNDER = {ast.Add: "__add__", ast.Sub: "__sub__", ast.Mult: "__mul__", ast.MatMult: "__matmul__", ast.Div: "__truediv__",
+             ast.BitOr: "__or__", ast.Pow: "__pow__"}
+
+
+def consuming_operator_sites(prog, sites):
+    """An operator overload that builds its result out of its operand's own objects (a constructor argument classified
+    `moved` whose owner is `self` / the parameter) *consumes* that operand.  Applying such an operator to the same operand
+    in every iteration of a comprehension or loop (`[self @ t for t in ...]`) puts the operand's objects into several
+    results.  Returns pseudo-sites (cls 'Term' so that the ownership rule reports them) for loop-invariant operands."""
+    mod = prog.mod("terms.terms")
+    consumes = {}  # (class name, dunder) -> set of consumed roles {'self', 'other'}
+    for st in sites:
+        fn = st["fn"]
+        if fn.cls is None or not fn.name.startswith("__"):
+            continue
+        for (_i, src, verdict, _why) in st["args"]:
+            if verdict != "moved":
+                continue
+            base = src.lstrip("*").split(".")[0].split("[")[0]
+            if base == "self":
+                consumes.setdefault((fn.cls.name, fn.name), set()).add("self")
+            elif len(fn.params) > 1 and base == fn.params[1]:
+                consumes.setdefault((fn.cls.name, fn.name), set()).add("other")
+    out = []
+    for q, fn in sorted(prog.functions.items()):
+        if fn.module is not mod or fn.parent is not None or fn.cls is None:
+            continue
+        for loop in ast.walk(fn.node):
+            if isinstance(loop, (ast.ListComp, ast.GeneratorExp, ast.SetComp)):
+                targets = {n.id for g in loop.generators for n in ast.walk(g.target) if isinstance(n, ast.Name)}
+                bodies = [loop.elt]
+            elif isinstance(loop, ast.For):
+                targets = {n.id for n in ast.walk(loop.target) if isinstance(n, ast.Name)}
+                bodies = loop.body
+            else:
+                continue
+            for b in bodies:
+                for x in ast.walk(b):
+                    if isinstance(x, ast.BinOp) and type(x.op) in OP_DUNDER and isinstance(x.left, ast.Name) and x.left.id == "self" \
+                            and "self" not in targets:
+                        d = OP_DUNDER[type(x.op)]
+                        if "self" in consumes.get((fn.cls.name, d), set()):
+                            out.append({"fn": fn, "node": x, "cls": "Term", "args": [
+                                (0, "self", "shared", f"`self` is the left operand of `{fn.cls.name}.{d}` in every iteration, and that operator "
+                                                      "builds its result from self's own components (no copy)")]})
+    return out
+
+
 def ownership_rule(prog, rep, rule, which=("Term", "GroupSpecificTerm")):
-    sites = [s for s in ownership_sites(prog) if s["cls"] in which]
+    all_sites = ownership_sites(prog)
+    sites = [s for s in all_sites if s["cls"] in which]
+    if "Term" in which:
+        sites += consuming_operator_sites(prog, all_sites)
     for s in sites:
         fn, call = s["fn"], s["node"]
         bad = [a for a in s["args"] if a[2] == "shared"]
@@ -716,3 +767,73 @@ def union_summary(fn):
 
     r = ev(rets[0].value, None)
     return None if r is None else frozenset(r)
+
+
+# ---- one-shot iterators --------------------------------------------------------------------
+ITERATOR_MAKERS = {"product", "combinations", "permutations", "chain", "zip", "map", "filter", "iter", "enumerate", "reversed",
+                   "combinations_with_replacement", "islice", "starmap", "zip_longest", "groupby", "accumulate", "compress", "takewhile", "dropwhile"}
+
+
+def one_shot_iterators(prog, rep, rule, modules=None):
+    """A local bound to an iterator (itertools.product(...), zip, map, a generator expression, ...) yields its items once.
+    If it is consumed at two program points where the second is reachable from the first, the second consumer sees an empty
+    sequence and silently produces nothing.  Reports every such local; returns the number of iterator locals examined."""
+    n = 0
+    for q, fn in sorted(prog.functions.items()):
+        if fn.parent is not None:
+            continue
+        if modules is not None and fn.module.name not in modules:
+            continue
+        makers = {}
+        for s in walk_local(fn.node):
+            if isinstance(s, ast.Assign) and len(s.targets) == 1 and isinstance(s.targets[0], ast.Name):
+                v = s.value
+                is_it = isinstance(v, ast.GeneratorExp) or (isinstance(v, ast.Call) and (dotted(v.func) or "").split(".")[-1] in ITERATOR_MAKERS
+                                                            and (dotted(v.func) or "").split(".")[0] in ("itertools", "product", "combinations", "zip", "map", "filter", "iter", "enumerate", "reversed", "chain", "permutations", "islice", "groupby"))
+                if is_it:
+                    makers.setdefault(s.targets[0].id, []).append(s)
+        if not makers:
+            continue
+        c = cfg_of(fn)
+        for name, defs in sorted(makers.items()):
+            stores = [x for x in ast.walk(fn.node) if isinstance(x, ast.Name) and x.id == name and isinstance(x.ctx, ast.Store)]
+            if len(stores) != len(defs):
+                continue  # re-bound to something else as well: not modelled, not reported
+            n += 1
+            uses = [x for x in ast.walk(fn.node) if isinstance(x, ast.Name) and x.id == name and isinstance(x.ctx, ast.Load)]
+            nodes = []
+            for u in uses:
+                try:
+                    nodes.append((c.node_of(u), u))
+                except AnalysisError:
+                    continue
+            bad = None
+            for i, (a, ua) in enumerate(nodes):
+                for b, ub in nodes[i + 1:]:
+                    if a == b or _reaches(c, a, b) or _reaches(c, b, a):
+                        # a fresh definition between the two uses re-arms the iterator
+                        if len(defs) > 1:
+                            continue
+                        bad = (ua, ub)
+                        break
+                if bad:
+                    break
+            obl(rep, fn, defs[0], rule, bad is None, f"the one-shot iterator `{name} = {short(defs[0].value, 50)}` is consumed once",
+                f"{len(uses)} use(s)",
+                f"`{name}` is an iterator ({short(defs[0].value, 50)}) and is consumed at line {bad[0].lineno} and again at line {bad[1].lineno}: "
+                "the second consumer gets nothing" if bad else "")
+    return n
+
+
+def _reaches(c, a, b):
+    seen = set()
+    work = list(c.succ.get(a, []))
+    while work:
+        x = work.pop()
+        if x == b:
+            return True
+        if x in seen:
+            continue
+        seen.add(x)
+        work.extend(c.succ.get(x, []))
+    return False
